@@ -24,8 +24,8 @@ CONSTANTS Chunks,  \* the data sets are dealt into this many chunks so that TLC'
                    \* cases run under {} and under all four options only (the functional composition ConvV is
                    \* judged under all 16 either way: OptionsInv, AllOptionSetsInv)
 McOpts(c) == IF c.fam \in FullFor THEN OptSets ELSE {{}, Options}
-Empty == [nodes |-> << >>, ways |-> << >>, rels |-> << >>]
-DsOf(c) == [nodes |-> c.nodes, ways |-> c.ways, rels |-> c.rels]
+Empty == [nodes |-> << >>, ways |-> << >>, rels |-> << >>, ids |-> SmallIds]
+DsOf(c) == [nodes |-> c.nodes, ways |-> c.ways, rels |-> c.rels, ids |-> c.ids]
 
 Init == ds = Empty /\ opts = {} /\ pc = "pick" /\ idx \in 1 .. Chunks /\ skip = {} /\ used = {} /\ fixed \in Variants /\ feats = << >>
 
@@ -56,20 +56,30 @@ Spec == Init /\ [][Next]_vars
 Done == pc = "done"
 
 (* ---- design level: Model |= Judges --------------------------------------- *)
+\* The machine (and Conv) transcribe the tree as it is, including what it does with ids that do not fit
+\* osm.FeatureID.  The Judges are checked on the ideal variant (the same data set with ids that fit), and the tree
+\* as it is must coincide with the ideal variant on every data set on which no known-finding predicate holds.
+KFid(d) == KF_PolygonIdentityViaFeatureID(d) \/ KF_NegativeIdsShareMembershipKey(d)
+\* (the Model reads ds.ids only through Fits and = "neg": when all three classes fit, the two variants are the same expression)
+AllFit(d) == \A t \in {"node", "way", "relation"} : Fits(d.ids[t])
+IdealFeats == IF AllFit(ds) THEN feats ELSE ConvV(Ideal(ds), opts, fixed)
 ModelledOnly  == \A i \in DOMAIN feats : feats[i].g # Unmodelled
 MachineIsConv == Done => FeatsEq(feats, ConvV(ds, opts, fixed))
-\* the pinned variant has the known finding; the fixed variant satisfies the Judge outright
-AtMostOneInv  == Done => (J_AtMostOne(ds, feats) \/ (~fixed /\ KF_SharedOldStyleOuter(ds) /\ OnlySharedOuterDuplicates(ds, feats)))
-CarriesInv    == Done => J_Carries(ds, opts, feats)
-MetaMemberInv == Done => J_MetaMembership(ds, opts, feats)
-NodeRuleInv   == Done => J_NodeRule(ds, feats)
-WayGeomInv    == Done => J_WayGeometry(ds, feats)
-RouteInv      == Done => J_Route(ds, feats)
+AsIsIsIdeal   == (Done /\ ~KFid(ds)) => FeatsEq(feats, IdealFeats)
+\* the variant before fix 626c4a8 has the (fixed) finding; the variant with the fix satisfies the Judge outright
+AtMostOneInv  == Done => (J_AtMostOne(ds, IdealFeats) \/ (~fixed /\ KF_SharedOldStyleOuter(ds) /\ OnlySharedOuterDuplicates(ds, IdealFeats)))
+CarriesInv    == Done => J_Carries(ds, opts, IdealFeats)
+MetaMemberInv == Done => J_MetaMembership(ds, opts, IdealFeats)
+NodeRuleInv   == Done => J_NodeRule(ds, IdealFeats)
+WayGeomInv    == Done => J_WayGeometry(ds, IdealFeats)
+RouteInv      == Done => J_Route(ds, IdealFeats)
 \* evaluated once per data set (at the end of the conversion without options), over the Model's 16 results
-OptionsInv    == (Done /\ opts = {}) => J_Options(ds, [O \in OptSets |-> ConvV(ds, O, fixed)])
+OptionsInv    == (Done /\ opts = {}) =>
+                   /\ J_Options(ds, [O \in OptSets |-> ConvV(Ideal(ds), O, fixed)])
+                   /\ ((~KFid(ds) /\ ~AllFit(ds)) => \A O \in OptSets : FeatsEq(ConvV(ds, O, fixed), ConvV(Ideal(ds), O, fixed)))
 \* ... and all judges on the functional composition under each of the 16 option sets
 AllOptionSetsInv ==
-  (Done /\ opts = {}) => \A O \in OptSets : LET F == ConvV(ds, O, fixed) IN
+  (Done /\ opts = {}) => \A O \in OptSets : LET F == ConvV(Ideal(ds), O, fixed) IN
      /\ (J_AtMostOne(ds, F) \/ (~fixed /\ KF_SharedOldStyleOuter(ds) /\ OnlySharedOuterDuplicates(ds, F)))
      /\ J_Carries(ds, O, F) /\ J_MetaMembership(ds, O, F)
      /\ J_NodeRule(ds, F) /\ J_WayGeometry(ds, F) /\ J_Route(ds, F)
